@@ -278,7 +278,12 @@ class StringTuning(object):
             for (i, x) in enumerate(rnotes):
                 if x.string < len(self.tuning) - 1:
                     if res[x.string][x.fret] != []:
+                        # spell the note as the chord does, at the pitch it
+                        # has: the octave number of a B# or Cb is not that
+                        # of the C or B it sounds like
+                        pitch = int(rnotes[i])
                         rnotes[i].name = res[x.string][x.fret][0]
+                        rnotes[i].octave -= (int(rnotes[i]) - pitch) // 12
             return rnotes
 
     def frets_to_NoteContainer(self, fingering):
